@@ -16,10 +16,28 @@ Lemma lwf_set_hs f HM s : LWF HM s -> LWF HM (set_hs f s).
 Proof. by apply lwf_same_store. Qed.
 
 (* ---- disjointness bookkeeping ---- *)
-Lemma disj_insert_nowin HM t c : mwin c = None -> disj HM -> disj (<[t := c]> HM).
+Lemma disj_insert_nowin HM t c : rwin c = None -> disj HM -> disj (<[t := c]> HM).
 Proof.
-  intros Hc D h1 h2 x1 x2 k o1 c1 o2 c2 Hne H1 H2 W1 W2.
+  intros Hc D h1 h2 x1 x2 k o1 c1 o2 c2 Hne H1 H2 W1 W2. pose proof (rwin_none_mwin _ Hc) as Hm.
   apply lookup_insert_Some in H1 as [[<- <-]|[? H1]]; [congruence|]. apply lookup_insert_Some in H2 as [[<- <-]|[? H2]]; [congruence|]. eauto.
+Qed.
+(* a handle whose view lies inside the view the handle under the same key had *)
+Definition rwin_sub (x x' : handle) : Prop :=
+  rwin x' = None \/ exists k o c o' c', rwin x = Some (k, o, c) /\ rwin x' = Some (k, o', c') /\ mwin x' = None /\ o <= o' /\ o' + c' <= o + c.
+Lemma disj_replace_read HM h x x' : disj HM -> HM !! h = Some x -> rwin_sub x x' -> disj (<[h := x']> HM).
+Proof.
+  intros D Hx [Hn|(k & o & c & o' & c' & Hr & Hr' & Hm' & Ha & Hb)]; [by apply disj_insert_nowin|].
+  intros h1 h2 x1 x2 k0 o1 c1 o2 c2 Hne H1 H2 W1 W2.
+  apply lookup_insert_Some in H1 as [[<- <-]|[? H1]]; [congruence|]. apply lookup_insert_Some in H2 as [[<- <-]|[? H2]]; [|eauto].
+  rewrite Hr' in W2. injection W2 as <- <- <-.
+  assert (c1 = 0 \/ c = 0 \/ o1 + c1 <= o \/ o + c <= o1) by (eapply (D h1 h); eauto). lia.
+Qed.
+(* a new handle with the same view as an existing Bytes handle *)
+Lemma disj_insert_copy HM t c h0 x0 : disj HM -> HM !! t = None -> HM !! h0 = Some x0 -> mwin x0 = None -> mwin c = None -> rwin c = rwin x0 -> disj (<[t := c]> HM).
+Proof.
+  intros D Ht H0 Hm0 Hmc Hrc h1 h2 x1 x2 k o1 c1 o2 c2 Hne H1 H2 W1 W2.
+  apply lookup_insert_Some in H1 as [[<- <-]|[? H1]]; [congruence|]. apply lookup_insert_Some in H2 as [[<- <-]|[? H2]]; [|eauto].
+  rewrite Hrc in W2. assert (h1 <> h0) by (intros ->; congruence). eapply (D h1 h0); eauto.
 Qed.
 Lemma disj_delete HM h : disj HM -> disj (delete h HM).
 Proof.
@@ -30,13 +48,19 @@ Proof. intros Hx Hh. pose proof (refs_insert HM h x x' k Hx) as H. unfold w in H
 Lemma w_hold x k : holds x = Some k -> w x k = 1%nat. Proof. intros H. unfold w. by rewrite decide_True. Qed.
 Lemma w_nohold x k : holds x <> Some k -> w x k = 0%nat. Proof. intros H. unfold w. by rewrite decide_False. Qed.
 
-(* a handle-only change: same storage held, still typed, no BytesMut window involved *)
-Lemma lwf_rehandle HM s h x x' : LWF HM s -> HM !! h = Some x -> holds x' = holds x -> typed (sts s) x' -> mwin x' = None -> LWF (<[h := x']> HM) s.
+(* a handle-only change: same storage held, still typed, its view (if it matters) inside the old one *)
+Lemma lwf_rehandle_sub HM s h x x' : LWF HM s -> HM !! h = Some x -> holds x' = holds x -> typed (sts s) x' -> rwin_sub x x' -> LWF (<[h := x']> HM) s.
 Proof.
   intros L Hx Hh Ht Hw. eapply lwf_step0; [exact L| | |].
   - intros h' y Hy. apply lookup_insert_Some in Hy as [[<- <-]|[? Hy]]; [done|]. by eapply (lwf_typed _ _ L).
   - intros k. by eapply refs_insert_same.
-  - apply disj_insert_nowin; [done|apply (lwf_disj _ _ L)].
+  - eapply disj_replace_read; [apply (lwf_disj _ _ L)|exact Hx|done].
+Qed.
+Lemma lwf_rehandle HM s h x x' : LWF HM s -> HM !! h = Some x -> holds x' = holds x -> typed (sts s) x' -> rwin x' = None -> LWF (<[h := x']> HM) s.
+Proof. intros L Hx Hh Ht Hw. eapply lwf_rehandle_sub; eauto. by left. Qed.
+Lemma rwin_sub_hb ko o l vt a o' l' a' : o <= o' -> o' + l' <= o + l -> rwin_sub (HB ko o l vt a) (HB ko o' l' vt a').
+Proof.
+  intros H1 H2. destruct ko as [k|]; [|by left]. destruct vt; try (by left). right. exists k, o, l, o', l'. repeat split; done.
 Qed.
 (* a new handle that holds nothing *)
 Lemma lwf_add_free HM s t c : LWF HM s -> HM !! t = None -> holds c = None -> typed (sts s) c -> LWF (<[t := c]> HM) s.
@@ -44,7 +68,7 @@ Proof.
   intros L Ht Hh Hty. eapply lwf_step0; [exact L| | |].
   - intros h' y Hy. apply lookup_insert_Some in Hy as [[<- <-]|[? Hy]]; [done|]. by eapply (lwf_typed _ _ L).
   - intros k. rewrite refs_insert_fresh by done. rewrite w_nohold; [done|]. by rewrite Hh.
-  - apply disj_insert_nowin; [|apply (lwf_disj _ _ L)]. destruct c as [? ? ? ? ?|? ? ? ? []|]; simpl in *; done.
+  - apply disj_insert_nowin; [|apply (lwf_disj _ _ L)]. destruct c as [[?|] ? ? [] ?|? ? ? ? []|]; simpl in *; done.
 Qed.
 (* a handle that holds nothing disappears *)
 Lemma lwf_del_free HM s h x : LWF HM s -> HM !! h = Some x -> holds x = None -> LWF (delete h HM) s.
@@ -94,14 +118,14 @@ Qed.
 
 (* one more reference, materialised as the new handle c under a fresh key *)
 Lemma clone_by_inc HM s t k st c : LWF HM s -> HM !! t = None -> sts s !! k = Some st -> s_live st = true -> s_ctrl st <> CNone ->
-  holds c = Some k -> mwin c = None -> typed (sts s) c ->
+  holds c = Some k -> disj (<[t := c]> HM) -> typed (sts s) c ->
   spec (inc_rc k) s (fun _ s1 => sframe s s1 /\ LWF (<[t := c]> HM) s1).
 Proof.
   intros L Ht Hs Hl Hc Hh Hw Hty. eapply (inc_rc_lwf HM _ s k st L Hs Hl Hc).
   - intros h' y Hy. apply lookup_insert_Some in Hy as [[<- <-]|[? Hy]]; [done|by eapply (lwf_typed _ _ L)].
   - rewrite refs_insert_fresh by done. by rewrite w_hold.
   - intros k2 Hk2. rewrite refs_insert_fresh by done. rewrite w_nohold; [done|]. congruence.
-  - apply disj_insert_nowin; [done|apply (lwf_disj _ _ L)].
+  - done.
 Qed.
 
 (* bytes_clone on the REAL table (it may flip the KIND bit of the handle's data cell): afterwards the clone c, put under any fresh key t,
@@ -144,7 +168,7 @@ Proof.
       repeat split; try done; lia.
     - intros k2 Hk2. rewrite refs_insert_fresh by (by rewrite lookup_insert_ne). rewrite w_nohold by (simpl; congruence).
       by rewrite (refs_insert_same _ _ _ _ _ Hx) by (by rewrite Hhf, Hh).
-    - apply disj_insert_nowin; [done|]. apply disj_insert_nowin; [done|apply (lwf_disj _ _ L)]. }
+    - apply disj_insert_nowin; [done|]. apply disj_insert_nowin; [by destruct Hvt as [-> | ->]|apply (lwf_disj _ _ L)]. }
   intros [] s1 [[Hh1 Hn] L1].
   eapply spec_bind; [apply spec_emit'|]. intros [] s2 ->.
   eapply spec_bind; [apply spec_put_h'|]. intros [] s2 ->. apply spec_ret.
@@ -165,25 +189,25 @@ Proof.
   - apply spec_ret. eapply clone_post_same; try done; [naive_solver|naive_solver|]. apply lwf_add_free; done.
   - (* owned *)
     destruct Hty as (st & Hs & Hl & Hb & Hcl & rc & o & Hc).
-    eapply spec_bind. { eapply (clone_by_inc _ s t k st (HB (Some k) ofs len VOwned false) L Ht Hs Hl); try done. - by rewrite Hc. - simpl. exists st. repeat split; eauto. }
+    eapply spec_bind. { eapply (clone_by_inc _ s t k st (HB (Some k) ofs len VOwned false) L Ht Hs Hl); try done. - by rewrite Hc. - apply disj_insert_nowin; [done|apply (lwf_disj _ _ L)]. - simpl. exists st. repeat split; eauto. }
     intros [] s1 [Hfr L1]. apply spec_ret. eapply clone_post_same; try done; naive_solver.
   - (* promotable, even *)
     destruct arc.
     + destruct Hty as (st & Hs & Hl & Hb & Hcl & rc & Hc). unfold shallow_clone_arc.
-      eapply spec_bind. { eapply (clone_by_inc _ s t k st (HB (Some k) ofs len VShared false) L Ht Hs Hl); try done. - by rewrite Hc. - simpl. exists st. repeat split; eauto. }
+      eapply spec_bind. { eapply (clone_by_inc _ s t k st (HB (Some k) ofs len VShared false) L Ht Hs Hl); try done. - by rewrite Hc. - apply disj_insert_nowin; [done|apply (lwf_disj _ _ L)]. - simpl. exists st. repeat split; eauto. }
       intros [] s1 [Hfr L1]. apply spec_ret. eapply clone_post_same; try done; naive_solver.
     + eapply clone_promote_lwf; try done. by left.
   - destruct arc.
     + destruct Hty as (st & Hs & Hl & Hb & Hcl & rc & Hc). unfold shallow_clone_arc.
-      eapply spec_bind. { eapply (clone_by_inc _ s t k st (HB (Some k) ofs len VShared false) L Ht Hs Hl); try done. - by rewrite Hc. - simpl. exists st. repeat split; eauto. }
+      eapply spec_bind. { eapply (clone_by_inc _ s t k st (HB (Some k) ofs len VShared false) L Ht Hs Hl); try done. - by rewrite Hc. - apply disj_insert_nowin; [done|apply (lwf_disj _ _ L)]. - simpl. exists st. repeat split; eauto. }
       intros [] s1 [Hfr L1]. apply spec_ret. eapply clone_post_same; try done; naive_solver.
     + eapply clone_promote_lwf; try done. by right.
   - (* shared *)
     destruct Hty as (st & Hs & Hl & Hb & Hcl & rc & Hc). unfold shallow_clone_arc.
-    eapply spec_bind. { eapply (clone_by_inc _ s t k st (HB (Some k) ofs len VShared false) L Ht Hs Hl); try done. - by rewrite Hc. - simpl. exists st. repeat split; eauto. }
+    eapply spec_bind. { eapply (clone_by_inc _ s t k st (HB (Some k) ofs len VShared false) L Ht Hs Hl); try done. - by rewrite Hc. - apply disj_insert_nowin; [done|apply (lwf_disj _ _ L)]. - simpl. exists st. repeat split; eauto. }
     intros [] s1 [Hfr L1]. apply spec_ret. eapply clone_post_same; try done; naive_solver.
   - destruct Hty as (st & Hs & Hl & Hb & Hcl & o & rc & Hc).
-    eapply spec_bind. { eapply (clone_by_inc _ s t k st (HB (Some k) ofs len VSharedV false) L Ht Hs Hl); try done. - by rewrite Hc. - simpl. exists st. repeat split; eauto. }
+    eapply spec_bind. { eapply (clone_by_inc _ s t k st (HB (Some k) ofs len VSharedV false) L Ht Hs Hl); try done. - by rewrite Hc. - eapply (disj_insert_copy _ t _ h); [apply (lwf_disj _ _ L)|done|exact Hx|done|done|done]. - simpl. exists st. repeat split; eauto. }
     intros [] s1 [Hfr L1]. apply spec_ret. eapply clone_post_same; try done; naive_solver.
 Qed.
 
@@ -299,7 +323,7 @@ Lemma wf_OBAdvance orc h cnt : wfstep orc (OBAdvance h cnt).
 Proof.
   intros s [L Hf] (ko & ofs & len & vt & arc & Hx). simpl. sbind (spec_get_h' _ _ _ Hx). intros x s1 [-> ->]. cbn [b_parts]. sret.
   sbind spec_assert'. intros [] s1 [Hc ->]. sbind spec_put_h'. intros [] s1 ->. apply spec_ret.
-  eapply wf_put_h; [done|exact Hx|]. eapply lwf_rehandle; [done|exact Hx|done| |done].
+  eapply wf_put_h; [done|exact Hx|]. eapply lwf_rehandle_sub; [done|exact Hx|done| |apply rwin_sub_hb; lia].
   apply typed_hb_adv; [by eapply (lwf_typed _ _ L)|lia].
 Qed.
 
@@ -344,7 +368,7 @@ Proof.
   intros c s1 (Hn & Hf1 & Ht1 & _ & vt' & -> & Hv' & L1).
   eapply spec_bind; [eapply (wf_new_h s1 _ (fun _ s2 => WF s2) Hf1); [|done]|intros r s2 W2; by apply spec_ret].
   rewrite Hn. rewrite <- (insert_insert (hs s1) (next_h s) (HB ko (ofs + b) (e - b) vt' false) (HB ko ofs len vt' false)).
-  eapply lwf_rehandle; [exact L1|apply lookup_insert|done| |done].
+  eapply lwf_rehandle_sub; [exact L1|apply lookup_insert|done| |apply rwin_sub_hb; lia].
   pose proof (lwf_typed _ _ L1 (next_h s) _ (lookup_insert _ _ _)) as Hc.
   destruct ko as [k|]; [|simpl in Hc; destruct Hc as [-> ->]; lia].
   eapply typed_hb_sub; [exact Hc|naive_solver|lia|lia].
@@ -369,7 +393,10 @@ Proof.
   - intros h' y Hy. apply lookup_insert_Some in Hy as [[<- <-]|[? Hy]]; [by eapply (lwf_typed _ _ L)|].
     apply lookup_insert_Some in Hy as [[<- <-]|[? Hy]]; [done|by eapply (lwf_typed _ _ L)].
   - intros k. rewrite refs_insert_fresh by (by rewrite lookup_insert_ne). pose proof (refs_insert HM h x e0 k Hx) as H. rewrite (w_nohold e0 k) in H by (by rewrite He). lia.
-  - apply disj_insert_nowin; [done|]. apply disj_insert_nowin; [done|apply (lwf_disj _ _ L)].
+  - assert (rwin e0 = None) as Hre by (destruct e0 as [[?|] ? ? [] ?|? ? ? ? []|]; simpl in *; done).
+    pose proof (lwf_disj _ _ L) as D. intros h1 h2 x1 x2 k o1 c1 o2 c2 Hn12 H1 H2 W1 W2.
+    apply lookup_insert_Some in H1 as [[<- <-]|[? H1]]; [congruence|]. apply lookup_insert_Some in H1 as [[<- <-]|[? H1]]; [congruence|].
+    apply lookup_insert_Some in H2 as [[<- <-]|[? H2]]; [eapply (D h1 h); eauto|]. apply lookup_insert_Some in H2 as [[<- <-]|[? H2]]; [congruence|]. eapply (D h1 h2); eauto.
 Qed.
 (* the common part of split_off / split_to / truncate: clone, re-read self; afterwards self may keep any sub-window [o1, o1+l1) and the
    new handle (under the next key) any sub-window [o2, o2+l2) *)
@@ -394,10 +421,10 @@ Proof.
   set (M0 := <[next_h s := HB (Some k) ofs len vt' false]> (hs s1)) in *.
   assert (M0 !! h = Some (HB (Some k) ofs len vt1 a1)) as HM0h by (unfold M0; by rewrite lookup_insert_ne).
   assert (LWF (<[h := HB (Some k) o1 l1 vt1 a1]> M0) s1) as L2.
-  { eapply lwf_rehandle; [exact L1|exact HM0h|done| |done]. eapply typed_hb_sub; [by eapply (lwf_typed _ _ L1)|naive_solver|lia|lia]. }
+  { eapply lwf_rehandle_sub; [exact L1|exact HM0h|done| |apply rwin_sub_hb; lia]. eapply typed_hb_sub; [by eapply (lwf_typed _ _ L1)|naive_solver|lia|lia]. }
   assert (<[h := HB (Some k) o1 l1 vt1 a1]> M0 !! next_h s = Some (HB (Some k) ofs len vt' false)) as Ht2 by (rewrite lookup_insert_ne by done; apply lookup_insert).
   assert (LWF (<[next_h s := HB (Some k) o2 l2 vt' false]> (<[h := HB (Some k) o1 l1 vt1 a1]> M0)) s1) as L3.
-  { eapply lwf_rehandle; [exact L2|exact Ht2|done| |done]. eapply typed_hb_sub; [by eapply (lwf_typed _ _ L2)|naive_solver|lia|lia]. }
+  { eapply lwf_rehandle_sub; [exact L2|exact Ht2|done| |apply rwin_sub_hb; lia]. eapply typed_hb_sub; [by eapply (lwf_typed _ _ L2)|naive_solver|lia|lia]. }
   unfold M0 in L3. rewrite (insert_commute _ h (next_h s)) in L3 by done. rewrite insert_insert in L3. exact L3.
 Qed.
 
@@ -464,7 +491,7 @@ Proof.
   destruct (len' <? len) eqn:E1; [|by apply spec_ret].
   assert (forall vt0, vt0 = vt -> (vt = VPromEven \/ vt = VPromOdd -> False) -> spec (put_h h (HB ko ofs len' vt arc);; mret RUnit) s (fun _ s1 => WF s1)) as Hplain.
   { intros vt0 _ Hnp. sbind spec_put_h'. intros [] s1 ->. apply spec_ret. eapply wf_put_h; [done|exact Hx|].
-    eapply lwf_rehandle; [done|exact Hx|done| |done]. destruct ko as [k|].
+    eapply lwf_rehandle_sub; [done|exact Hx|done| |apply rwin_sub_hb; lia]. destruct ko as [k|].
     - eapply typed_hb_sub; [by eapply (lwf_typed _ _ L)|naive_solver|lia|lia].
     - pose proof (len0_of_none _ _ _ _ _ _ L Hx). lia. }
   assert (spec (let! y := bytes_split_off_core h len' in bytes_drop_rep y;; mret RUnit) s (fun _ s1 => WF s1)) as Hprom.
@@ -480,7 +507,7 @@ Proof. intros s W Hok. simpl. by apply wf_bytes_truncate. Qed.
 
 (* ---- constructors, Vec handles ---- *)
 (* a sole token on a freshly allocated buffer *)
-Lemma alloc_token HM s size k' s1 t x' : LWF HM s -> alloc_post HM s size k' s1 -> HM !! t = None -> holds x' = Some k' -> mwin x' = None ->
+Lemma alloc_token HM s size k' s1 t x' : LWF HM s -> alloc_post HM s size k' s1 -> HM !! t = None -> holds x' = Some k' -> rwin x' = None ->
   (forall st', sts s1 !! k' = Some st' -> s_live st' = true -> s_ctrl st' = CNone -> s_size st' = size -> s_cls st' = (if size =? 0 then SDangling else SHeap) -> typed (sts s1) x') ->
   LWF (<[t := x']> HM) s1.
 Proof.
@@ -504,7 +531,7 @@ Proof. intros Hs Hl Hc Hsz Hcl Hle. simpl. exists st'. rewrite Hcl, Hsz. repeat 
 
 (* new_h of a handle on a fresh buffer *)
 Lemma wf_alloc_new s size init (mk : positive -> handle) :
-  WF s -> (forall k', holds (mk k') = Some k' /\ mwin (mk k') = None) ->
+  WF s -> (forall k', holds (mk k') = Some k' /\ rwin (mk k') = None) ->
   (forall sm k' st', sm !! k' = Some st' -> s_live st' = true -> s_ctrl st' = CNone -> s_size st' = size -> s_cls st' = (if size =? 0 then SDangling else SHeap) -> typed sm (mk k')) ->
   spec (let! k := alloc_buf size init in let! r := new_h (mk k) in mret (RH r)) s (fun _ s1 => WF s1).
 Proof.
@@ -528,7 +555,7 @@ Proof.
   intros sm k' st' ? ? ? ? ?. unfold from_vec. eapply typed_fresh_hm; eauto; lia.
 Qed.
 Lemma wf_to_vec_new s bs (mk : positive -> N -> handle) :
-  WF s -> (forall k', holds (mk k' (lenN bs)) = Some k' /\ mwin (mk k' (lenN bs)) = None) ->
+  WF s -> (forall k', holds (mk k' (lenN bs)) = Some k' /\ rwin (mk k' (lenN bs)) = None) ->
   (forall sm k' st', sm !! k' = Some st' -> s_live st' = true -> s_ctrl st' = CNone -> s_size st' = lenN bs -> s_cls st' = (if lenN bs =? 0 then SDangling else SHeap) -> typed sm (mk k' (lenN bs))) ->
   spec (let! (k, c) := to_vec bs in let! r := new_h (mk k c) in mret (RH r)) s (fun _ s1 => WF s1).
 Proof.
@@ -831,18 +858,20 @@ Qed.
 
 (* ---- windows of shared BytesMut handles ---- *)
 Definition win_in (o c o' c' : N) : Prop := o <= o' /\ o' + c' <= o + c.      (* [o', o'+c') inside [o, o+c) *)
+Lemma rwin_holds x k o c : rwin x = Some (k, o, c) -> holds x = Some k.
+Proof. destruct x as [[?|] ? ? [] ?| ? ? ? ? []|]; simpl; try done; by intros [= -> _ _]. Qed.
 Lemma disj_replace_sub G h k o l c kd x' : disj G -> G !! h = Some (HM k o l c kd) ->
-  (forall k' o' c', mwin x' = Some (k', o', c') -> k' = k /\ ((kd = MArc /\ win_in o c o' c') \/ (forall h2 y, h2 <> h -> G !! h2 = Some y -> holds y <> Some k))) ->
+  (forall k' o' c', rwin x' = Some (k', o', c') -> k' = k /\ ((kd = MArc /\ win_in o c o' c') \/ (forall h2 y, h2 <> h -> G !! h2 = Some y -> holds y <> Some k))) ->
   disj (<[h := x']> G).
 Proof.
   intros D Hx Hsub h1 h2 x1 x2 k0 o1 c1 o2 c2 Hne H1 H2 W1 W2.
   apply lookup_insert_Some in H1 as [[<- <-]|[? H1]]; apply lookup_insert_Some in H2 as [[<- <-]|[? H2]]; try done.
-  - destruct (Hsub _ _ _ W1) as [-> [[-> [Ha Hb]]|Hsole]].
+  - destruct (Hsub _ _ _ (mwin_rwin _ _ W1)) as [-> [[-> [Ha Hb]]|Hsole]].
     + assert (c = 0 \/ c2 = 0 \/ o + c <= o2 \/ o2 + c2 <= o) as Hd by (eapply (D h h2); eauto). lia.
-    + exfalso. eapply (Hsole h2 x2); eauto. destruct x2 as [| ? ? ? ? []|]; simpl in W2; try done. by injection W2 as -> _ _.
+    + exfalso. eapply (Hsole h2 x2); eauto. by eapply rwin_holds.
   - destruct (Hsub _ _ _ W2) as [-> [[-> [Ha Hb]]|Hsole]].
     + assert (c1 = 0 \/ c = 0 \/ o1 + c1 <= o \/ o + c <= o1) as Hd by (eapply (D h1 h); eauto). lia.
-    + exfalso. eapply (Hsole h1 x1); eauto. destruct x1 as [| ? ? ? ? []|]; simpl in W1; try done. by injection W1 as -> _ _.
+    + exfalso. eapply (Hsole h1 x1); eauto. eapply rwin_holds. by apply mwin_rwin.
   - eapply (D h1 h2); eauto.
 Qed.
 Lemma lwf_hm_subwin G s h k o l c o' l' c' : LWF G s -> G !! h = Some (HM k o l c MArc) -> win_in o c o' c' -> l' <= c' ->
@@ -904,13 +933,13 @@ Proof.
       apply lookup_insert_Some in H1 as [[<- <-]|[? H1]]; apply lookup_insert_Some in H2 as [[<- <-]|[? H2]]; try done.
       * apply lookup_insert_Some in H2 as [[<- <-]|[? H2]].
         -- injection W1 as <- <- <-. injection W2 as <- <-. lia.
-        -- exfalso. injection W1 as <- _ _. eapply (Hsole h2 x2); eauto. destruct x2 as [| ? ? ? ? []|]; simpl in W2; try done. by injection W2 as -> _ _.
+        -- exfalso. injection W1 as <- _ _. eapply (Hsole h2 x2); eauto. by eapply rwin_holds.
       * apply lookup_insert_Some in H1 as [[<- <-]|[? H1]].
         -- injection W1 as <- <- <-. injection W2 as <- <-. lia.
-        -- exfalso. injection W2 as <- _ _. eapply (Hsole h1 x1); eauto. destruct x1 as [| ? ? ? ? []|]; simpl in W1; try done. by injection W1 as -> _ _.
+        -- exfalso. injection W2 as <- _ _. eapply (Hsole h1 x1); eauto. eapply rwin_holds; by apply mwin_rwin.
       * apply lookup_insert_Some in H1 as [[<- <-]|[? H1]]; apply lookup_insert_Some in H2 as [[<- <-]|[? H2]]; try done.
-        -- exfalso. injection W1 as <- _ _. eapply (Hsole h2 x2); eauto. destruct x2 as [| ? ? ? ? []|]; simpl in W2; try done. by injection W2 as -> _ _.
-        -- exfalso. injection W2 as <- _ _. eapply (Hsole h1 x1); eauto. destruct x1 as [| ? ? ? ? []|]; simpl in W1; try done. by injection W1 as -> _ _.
+        -- exfalso. injection W1 as <- _ _. eapply (Hsole h2 x2); eauto. by eapply rwin_holds.
+        -- exfalso. injection W2 as <- _ _. eapply (Hsole h1 x1); eauto. eapply rwin_holds; by apply mwin_rwin.
         -- eapply (lwf_disj _ _ L h1 h2); eauto.
 Qed.
 
@@ -1046,9 +1075,9 @@ Proof.
       rewrite <- (insert_delete_insert G). apply lwf_add_free; try done. apply lookup_delete.
     + rewrite insert_insert in Hb. rewrite <- (insert_insert G h (HB ko (0 + ofs) (len + ofs - ofs) vt' a') (HB ko 0 (len + ofs) vt' a')).
       pose proof (lwf_typed _ _ Hb h _ (lookup_insert _ _ _)) as Htb.
-      eapply lwf_rehandle; [exact Hb|apply lookup_insert|done| |done]. apply typed_hb_adv; [done|lia].
+      eapply lwf_rehandle_sub; [exact Hb|apply lookup_insert|done| |apply rwin_sub_hb; lia]. apply typed_hb_adv; [done|lia].
   - destruct Hty as (st & Hs & Hlv & Hcl & (o & rc & Hc) & Hb & Hle). apply spec_ret. split; [done|].
-    eapply lwf_rehandle; [done|exact Hx|done| |done]. exists st. repeat split; try done; [lia|eauto].
+    eapply lwf_rehandle_sub; [done|exact Hx|done| |right; exists k, ofs, cap, ofs, len; repeat split; try done; lia]. exists st. repeat split; try done; [lia|eauto].
 Qed.
 Lemma wf_OMFreeze orc h : wfstep orc (OMFreeze h).
 Proof.
@@ -1071,7 +1100,7 @@ Qed.
 (* copy the window out into a fresh Vec, then give the reference back: the new handle (built by mk) replaces the old one *)
 Lemma copy_out_lwf G s h t x k ofs len st (mk : positive -> N -> handle) :
   LWF G s -> G !! h = Some x -> G !! t = None -> holds x = Some k -> sts s !! k = Some st -> s_live st = true -> s_ctrl st <> CNone -> ofs + len <= s_size st ->
-  (forall k' c, holds (mk k' c) = Some k' /\ mwin (mk k' c) = None) ->
+  (forall k' c, holds (mk k' c) = Some k' /\ rwin (mk k' c) = None) ->
   (forall sm k' st' c, sm !! k' = Some st' -> s_live st' = true -> s_ctrl st' = CNone -> s_size st' = c -> s_cls st' = (if c =? 0 then SDangling else SHeap) -> typed sm (mk k' c)) ->
   spec (let! bs := mread k ofs len in let! (k', c) := to_vec bs in release k;; mret (mk k' c)) s (fun v s1 => sframe s s1 /\ LWF (<[t := v]> (delete h G)) s1).
 Proof.
@@ -1094,7 +1123,7 @@ Proof. intros. eapply typed_fresh_hv; eauto; lia. Qed.
 (* the same for a handle that holds nothing (static): no release *)
 Lemma copy_static_lwf G s h t x (mk : positive -> N -> handle) :
   LWF G s -> G !! h = Some x -> G !! t = None -> holds x = None ->
-  (forall k' c, holds (mk k' c) = Some k' /\ mwin (mk k' c) = None) ->
+  (forall k' c, holds (mk k' c) = Some k' /\ rwin (mk k' c) = None) ->
   (forall sm k' st' c, sm !! k' = Some st' -> s_live st' = true -> s_ctrl st' = CNone -> s_size st' = c -> s_cls st' = (if c =? 0 then SDangling else SHeap) -> typed sm (mk k' c)) ->
   spec (let! bs := bytes_contents x in let! (k', c) := to_vec bs in mret (mk k' c)) s (fun v s1 => sframe s s1 /\ LWF (<[t := v]> (delete h G)) s1).
 Proof.
@@ -1109,7 +1138,7 @@ Qed.
 
 (* the only holder replaces the control block (or removes it) and re-types its handle *)
 Lemma sole_reshape_lwf G s h x k st c1 x' :
-  LWF G s -> G !! h = Some x -> holds x = Some k -> refs G k = 1%nat -> sts s !! k = Some st -> holds x' = Some k -> mwin x' = None ->
+  LWF G s -> G !! h = Some x -> holds x = Some k -> refs G k = 1%nat -> sts s !! k = Some st -> holds x' = Some k -> rwin x' = None ->
   typed (<[k := with_ctrl c1 st]> (sts s)) x' -> st_ok (owners s) k (with_ctrl c1 st) 1 ->
   spec (put_st k (with_ctrl c1 st)) s (fun _ s1 => sframe s s1 /\ LWF (<[h := x']> G) s1).
 Proof.
@@ -1130,7 +1159,7 @@ Qed.
 (* mem::replace(&mut shared.vec, Vec::new()); release_shared(shared): the unique holder takes the Vec out of the control block *)
 Lemma take_vec_out_lwf G s h x k st vcap o x' :
   LWF G s -> G !! h = Some x -> holds x = Some k -> sts s !! k = Some st -> s_live st = true -> s_ctrl st = CSharedV vcap o 1 ->
-  holds x' = Some k -> mwin x' = None -> typed (<[k := with_ctrl CNone st]> (sts s)) x' ->
+  holds x' = Some k -> rwin x' = None -> typed (<[k := with_ctrl CNone st]> (sts s)) x' ->
   spec (put_st k (with_ctrl (CSharedVEmpty o 1) st);; release k) s (fun _ s1 => sframe s s1 /\ LWF (<[h := x']> G) s1).
 Proof.
   intros L Hx Hh Hs Hl Hc Hh' Hw Hty. pose proof (refs_of_rc1 _ _ _ _ L Hs Hl (or_intror (ex_intro _ vcap (ex_intro _ o Hc)))) as Hn.
@@ -1298,8 +1327,8 @@ Proof.
       * assert (rc = 1) as -> by lia. pose proof (refs_of_rc1 _ _ _ _ L Hs Hl (or_intror (ex_intro _ _ (ex_intro _ _ Hc)))) as Hn.
         intros h1 h2 x1 x2 k0 o1 c1 o2 c2 Hn12 H1 H2 W1 W2. pose proof (lwf_disj _ _ L) as D.
         apply lookup_insert_Some in H1 as [[<- <-]|[? H1]]; apply lookup_insert_Some in H2 as [[<- <-]|[? H2]]; try done.
-        -- exfalso. injection W1 as <- _ _. eapply (refs_one_other G h _ k h2 x2 Hn Hx eq_refl H2); [congruence|]. destruct x2 as [| ? ? ? ? []|]; simpl in W2; try done. by injection W2 as -> _ _.
-        -- exfalso. injection W2 as <- _ _. eapply (refs_one_other G h _ k h1 x1 Hn Hx eq_refl H1); [congruence|]. destruct x1 as [| ? ? ? ? []|]; simpl in W1; try done. by injection W1 as -> _ _.
+        -- exfalso. injection W1 as <- _ _. eapply (refs_one_other G h _ k h2 x2 Hn Hx eq_refl H2); [congruence|]. by eapply rwin_holds.
+        -- exfalso. injection W2 as <- _ _. eapply (refs_one_other G h _ k h1 x1 Hn Hx eq_refl H1); [congruence|]. eapply rwin_holds; by apply mwin_rwin.
         -- eapply (D h1 h2); eauto.
     + eapply (copy_out_lwf G s h t _ k ofs len st (fun k' c => from_vec k' c c) L Hx Ht eq_refl Hs Hl); try done; [by rewrite Hc|]. intros. by eapply typed_fresh_hm'.
 Qed.
@@ -1328,7 +1357,6 @@ Definition realloc_post (G : hmap) (s : hst) (h : hid) (k : positive) (st : stor
   exists st', sts s1 !! k' = Some st' /\ s_live st' = true /\ s_size st' = c /\ s_cls st' = (if c =? 0 then SDangling else SHeap) /\ s_ctrl st' = s_ctrl st /\
   (* any re-typing of the holder's handle onto k', with any control block of the right shape, re-establishes the invariant *)
   forall c1 x', holds x' = Some k' -> typed (<[k' := with_ctrl c1 st']> (sts s1)) x' -> st_ok (owners s) k' (with_ctrl c1 st') 1 ->
-    (forall h2 y k0 o0 c0 o1 cc1, h2 <> h -> G !! h2 = Some y -> mwin y = Some (k0, o0, c0) -> mwin x' = Some (k0, o1, cc1) -> False) ->
     LWF (<[h := x']> G) (set_sts (<[k' := with_ctrl c1 st']>) s1).
 Lemma realloc_buf_lwf G s h x k st orc oldcap keep need :
   LWF G s -> G !! h = Some x -> holds x = Some k -> refs G k = 1%nat -> sts s !! k = Some st -> s_live st = true -> heapish (s_cls st) ->
@@ -1351,7 +1379,7 @@ Proof.
     sbind spec_mput'. intros [] s1 ->. sbind spec_emit'. intros [] s1 ->. apply spec_ret.
     unfold realloc_post. split; [done|]. split; [done|]. split; [done|]. split; [done|]. split; [done|].
     eexists. split; [simpl; apply lookup_insert|]. cbn [s_live s_size s_cls s_ctrl]. rewrite Hc0. split; [done|]. split; [done|]. split; [done|]. split; [done|].
-    intros cnew xn Hh' Hty Hok' Hdis. unfold set_sts. cbn [sts hs owners next_real next_pseudo next_h next_o odd_mode]. rewrite insert_insert.
+    intros cnew xn Hh' Hty Hok'. unfold set_sts. cbn [sts hs owners next_real next_pseudo next_h next_o odd_mode]. rewrite insert_insert.
     set (stn := with_ctrl cnew _). set (k' := xO (next_real s)) in *.
     constructor; cbn [sts owners].
     + intros h' y Hy. apply lookup_insert_Some in Hy as [[<- <-]|[Hne Hy]].
@@ -1372,8 +1400,10 @@ Proof.
            pose proof (refs_insert G h x xn k2 Hx) as HH. rewrite (w_nohold xn k2) in HH by congruence. rewrite (w_nohold x k2) in HH by congruence. lia.
     + intros h1 h2 x1 x2 k0 o1 cc1 o2 c2 Hn12 H1 H2 W1 W2.
       apply lookup_insert_Some in H1 as [[<- <-]|[? H1]]; apply lookup_insert_Some in H2 as [[<- <-]|[? H2]]; try done.
-      * exfalso. eapply (Hdis h2 x2); eauto.
-      * exfalso. eapply (Hdis h1 x1); eauto.
+      * exfalso. pose proof (rwin_holds _ _ _ _ (mwin_rwin _ _ W1)) as Hk0. rewrite Hh' in Hk0. injection Hk0 as <-.
+        destruct (typed_holds _ _ _ (T _ _ H2) (rwin_holds _ _ _ _ W2)) as (sty & Hsy & _). congruence.
+      * exfalso. pose proof (rwin_holds _ _ _ _ W2) as Hk0. rewrite Hh' in Hk0. injection Hk0 as <-.
+        destruct (typed_holds _ _ _ (T _ _ H1) (rwin_holds _ _ _ _ (mwin_rwin _ _ W1))) as (sty & Hsy & _). congruence.
       * eapply (D h1 h2); eauto.
     + repeat split; simpl.
       * intros p [st0 Hp]. destruct (decide (p = next_real s)) as [->|Hne]; [lia|]. rewrite lookup_insert_ne in Hp by (unfold k'; congruence).
@@ -1399,7 +1429,7 @@ Proof.
     split; [done|]. split; [done|]. split; [done|]. split; [done|]. split; [done|].
     exists (with_ctrl (s_ctrl st) stn0). split; [rewrite lookup_insert_ne by done; apply lookup_insert|].
     cbn [with_ctrl s_live s_size s_cls s_ctrl stn0]. rewrite Hc0. split; [done|]. split; [done|]. split; [done|]. split; [done|].
-    intros cnew xn Hh' Hty Hok' Hdis. rewrite (insert_commute _ k k') by done. rewrite insert_insert.
+    intros cnew xn Hh' Hty Hok'. rewrite (insert_commute _ k k') by done. rewrite insert_insert.
     unfold st_ok in Hok. rewrite Hcl in Hok. destruct Hok as (Hz & _ & Hctl).
     constructor; cbn [sts owners].
     + intros h' y Hy. apply lookup_insert_Some in Hy as [[<- <-]|[Hne Hy]].
@@ -1420,8 +1450,10 @@ Proof.
            pose proof (refs_insert G h x xn k2 Hx) as HH. rewrite (w_nohold xn k2) in HH by congruence. rewrite (w_nohold x k2) in HH by congruence. lia.
     + intros h1 h2 x1 x2 k0 o1 cc1 o2 c2 Hn12 H1 H2 W1 W2.
       apply lookup_insert_Some in H1 as [[<- <-]|[? H1]]; apply lookup_insert_Some in H2 as [[<- <-]|[? H2]]; try done.
-      * exfalso. eapply (Hdis h2 x2); eauto.
-      * exfalso. eapply (Hdis h1 x1); eauto.
+      * exfalso. pose proof (rwin_holds _ _ _ _ (mwin_rwin _ _ W1)) as Hk0. rewrite Hh' in Hk0. injection Hk0 as <-.
+        destruct (typed_holds _ _ _ (T _ _ H2) (rwin_holds _ _ _ _ W2)) as (sty & Hsy & _). congruence.
+      * exfalso. pose proof (rwin_holds _ _ _ _ W2) as Hk0. rewrite Hh' in Hk0. injection Hk0 as <-.
+        destruct (typed_holds _ _ _ (T _ _ H1) (rwin_holds _ _ _ _ (mwin_rwin _ _ W1))) as (sty & Hsy & _). congruence.
       * eapply (D h1 h2); eauto.
     + repeat split; simpl.
       * intros p [st0 Hp]. destruct (decide (p = next_real s)) as [->|Hne]; [lia|]. rewrite lookup_insert_ne in Hp by (unfold k'; congruence).
@@ -1524,9 +1556,6 @@ Proof.
       { exists (with_ctrl (CSharedV vcap o 1) st'). rewrite lookup_insert. simpl. rewrite Hl', Hcl', Hsz'.
         split; [done|]. split; [done|]. split; [by left|]. split; [eauto|]. split; lia. }
       { unfold st_ok. simpl. rewrite Hcl', Hl', Hsz'. repeat split; try done; lia. }
-      { intros h2 y k0 o0 c0 o1 cc1 Hne Hy W1 [= <- _ _].
-        assert (holds y = Some k') as Hhy. { destruct y as [| ? ? ? ? []|]; simpl in W1; try done. by injection W1 as -> _ _. }
-        destruct (typed_holds _ _ _ (lwf_typed _ _ L _ _ Hy) Hhy) as (sty & Hsy & _). congruence. }
     + destruct allocate; cbn [negb]; [|apply spec_ret; split; [done|]; split; [by rewrite insert_id|unfold is_hm; eauto 10]].
       set (ncap := N.max (len + additional) (ocr_from_repr o)).
       sbind (mread_spec s k off len st Hs Hlv). { lia. } intros bs s1 ->.
